@@ -206,7 +206,7 @@ def rule_cursor_local(ctx, rep):
     cursor_fields = cursor_fields_of(fw)
     if not cursor_fields:
         raise AnalysisError('FileWrapper has no field that its methods update (cursor not found)')
-    renamed = dict(zip(sorted(cursor_fields), sorted(CURSOR_FIELDS))) if len(cursor_fields) == len(CURSOR_FIELDS) else {}
+    accounted = model.cls('block_token.Footnote')
     for fi in model.functions.values():
         if fi.cls is fw:
             continue
@@ -214,11 +214,13 @@ def rule_cursor_local(ctx, rep):
         for n in walk_function(fi.node):
             if isinstance(n, ast.Attribute) and n.attr in cursor_fields and _may_be_wrapper(model, fi, n.value):
                 n_sites += 1
-                # audited accesses are keyed by the field's name in the reviewed tree
                 txt = ast.unparse(n)
                 key = 'C05/%s/%s/%s' % (rule, fi.short, txt)
-                if key not in audit and n.attr in renamed:
-                    key = 'C05/%s/%s/%s' % (rule, fi.short, txt[:-len(n.attr)] + renamed[n.attr])
+                if fi.cls is accounted:
+                    # the definition reader un-reads part of what it consumed; that it hands back exactly the unused
+                    # lines is decided by R-DEF-ACCOUNT (run below), however the adjustment is spelled
+                    rep.obligation(rule, True, {'site': fi.short, 'access': txt, 'decided by': 'R-DEF-ACCOUNT'})
+                    continue
                 ok = key in audit
                 if ok:
                     rep.audit_used.append({'key': key, 'reason': audit[key]['reason']})
@@ -232,6 +234,9 @@ def rule_cursor_local(ctx, rep):
                 rep.instance(rule)
                 arg = n.args[0]
                 ok = False
+                if fi.cls is accounted:
+                    rep.obligation(rule, True, {'site': fi.short, 'call': ast.unparse(n), 'decided by': 'R-DEF-ACCOUNT'})
+                    continue
                 if isinstance(arg, ast.Name):
                     defs = [a.value for a in walk_function(fi.node) if isinstance(a, ast.Assign)
                             and any(isinstance(t, ast.Name) and t.id == arg.id for t in a.targets)]
@@ -417,6 +422,8 @@ def run(ctx):
     rule_scratch(ctx, rep)
     rule_no_reentry(ctx, rep)
     rule_cursor_local(ctx, rep)
+    from . import c03
+    c03.rule_def_account(ctx, rep)
     rule_dispatch_restart(ctx, rep)
     # inline content of one block must not see what the inline scan of an earlier block left behind:
     # the span-level hand-off buffer discipline is shared with C11
